@@ -697,7 +697,7 @@ def gen_runner_case(rng, tier, profile="matching", **kw):
     return {"drive": "runner", "seed": rng.randrange(1 << 31), "config": cfg, "profile": profile}
 
 
-def gen_accounting_case(rng, tier, hostile=None, hft=None):
+def gen_accounting_case(rng, tier, hostile=None, hft=None, hostile_hft=False):
     """workload for the life-cycle monitors: several markets, normal and HFT scripted agents that cancel
     (resting, partly filled, filled, expired, already cancelled orders), quote both sides (self-trades),
     short and absent ttl, placement-only sessions followed by execution sessions (batch clearing)."""
@@ -791,7 +791,11 @@ def gen_accounting_case(rng, tier, hostile=None, hft=None):
         case["logger_kind"] = "falsy"
     if hostile:
         # one agent group carries the hostile action; it fires rarely so that the run first builds state
-        g = cfg[rng.choice([n for n in cfg["simulation"]["agents"] if "program" in cfg[n]])]
+        cand = [n for n in cfg["simulation"]["agents"] if "program" in cfg[n]]
+        if hostile_hft and "H" in cfg:
+            cand = ["H"]
+            case["hostile_by"] = "hft"
+        g = cfg[rng.choice(cand)]
         g["program"]["actions"].append([1, {"a": hostile}])
         case["hostile"] = hostile
     return case
